@@ -137,6 +137,9 @@ func buildZoo(hook func(ctx context.Context, name string) error) *graphql.Schema
 		}
 		return mkItem(args.Id%7, 0), nil
 	})
+	q.FieldFunc("nullItems", func() []*Item { return []*Item{nil, nil, nil} }) // a list of only nulls
+	q.FieldFunc("noItems", func() []*Item { return []*Item{} })                // an empty list
+	q.FieldFunc("noItem", func() *Item { return nil })                         // a null object
 	q.FieldFunc("things", func(ctx context.Context) ([]*Thing, error) {
 		if err := enter(ctx, "things"); err != nil {
 			return nil, err
@@ -231,6 +234,33 @@ func buildZoo(hook func(ctx context.Context, name string) error) *graphql.Schema
 		return &Thing{Item: mkItem(it.Id+1, it.depth+1)}, nil
 	})
 	item.FieldFunc("isKind", func(it *Item, args struct{ K Kind }) bool { return it.Kind == args.K })
+	// fields with a parallelism hint (schemabuilder.NumParallelInvocationsFunc): the executor splits the
+	// sources of such a field over that many work units, whatever the function returns and however many
+	// sources there are (none, when every parent object is null). parB*: batch field funcs; parP*: plain
+	// context-taking field funcs.
+	for _, h := range []struct {
+		suffix string
+		n      int
+	}{{"0", 0}, {"1", 1}, {"2", 2}, {"5", 5}, {"Big", 1000}, {"Neg", -3}} {
+		n := h.n
+		hint := schemabuilder.NumParallelInvocationsFunc(func(ctx context.Context, numNodes int) int { return n })
+		item.BatchFieldFunc("parB"+h.suffix, func(ctx context.Context, in map[batch.Index]*Item) (map[batch.Index]int64, error) {
+			if err := enter(ctx, "parB"); err != nil {
+				return nil, err
+			}
+			out := make(map[batch.Index]int64, len(in))
+			for i, it := range in {
+				out[i] = it.Id
+			}
+			return out, nil
+		}, hint)
+		item.FieldFunc("parP"+h.suffix, func(ctx context.Context, it *Item) (int64, error) {
+			if err := enter(ctx, "parP"); err != nil {
+				return 0, err
+			}
+			return it.Id, nil
+		}, hint)
+	}
 	item.FieldFunc("owner", func(ctx context.Context, it *Item) (*Owner, error) {
 		if err := enter(ctx, "owner"); err != nil {
 			return nil, err
